@@ -125,7 +125,9 @@ def judge_state(ctx, az, steps, rng):
             ctx.check(ok, "variance-on-covariance-diagonal", "covariance diagonal differs from the squared standard deviations",
                       distribution=dist, cov=c, std_f=got["std_fn_frequency"], std_a=got["std_fn_amplitude"], **info)
         mc, mp = got["mean_curve"], got["mean_curve_peak"]
-        if not is_raise(mc):
+        if not is_raise(mc) and hs[0]._find_peaks_kwargs:
+            ctx.count("mean_curve_peak_not_judged_find_peaks_kwargs")    # height / prominence redefine "a peak" (C08 ASSUMPTIONS)
+        elif not is_raise(mc):
             o = Oracle(f, mc, tuple(sr))
             if is_raise(mp):
                 ctx.check(not o.nan_forbidden, "mean-curve-peak", "mean_curve_peak refused although the mean curve has an "
